@@ -13,7 +13,7 @@ from liesel.goose.epoch import EpochConfig, EpochType
 from liesel.goose.kernel_sequence import KernelSequence
 from liesel.goose.pytree import stack_leaves
 
-from .probes import BOOKED, ProbeKernel, ProbeQG, read_logs
+from .probes import BOOKED, ComputingDictInterface, ProbeKernel, ProbeQG, read_logs
 
 SHAPES = [(), (2,), (2, 2), (3,)]
 
@@ -30,11 +30,11 @@ def cfg_of(c):
 
 def build_engine(K, needs_hist, chains, seed, J, init_cfgs, included=(), excluded=(),
                  store_kernel_states=False, error_tables=None, cap=400, via_builder=False, nq=0, prebuild=False,
-                 error_books=None, minimize_infos=False, tune_error_chains=(), show_progress=False):
+                 error_books=None, minimize_infos=False, tune_error_chains=(), show_progress=False, computing=False):
     """prebuild (with via_builder): the builder first builds another engine, which is run to the end and has an epoch
     appended; the engine that is returned is built afterwards from the same builder and must be unaffected."""
     keys = [f"p{k}" for k in range(1, K + 1)]
-    model = gs.DictInterface(lambda s: jnp.asarray(0.0))
+    model = (ComputingDictInterface if computing else gs.DictInterface)(lambda s: jnp.asarray(0.0))
     kernels = []
     for k in range(1, K + 1):
         cls = ProbeKernel if not error_books else BOOKED[k]      # classes with their own error books (picklable)
@@ -145,11 +145,11 @@ def _refusal(ex):
 
 def run(ops, K=2, needs_hist=(2,), chains=2, seed=0, J=1, init_cfgs=(), included=(), excluded=(),
         store_kernel_states=False, via_builder=False, meta=None, nq=0, prebuild=False, tune_error_chains=(),
-        show_progress=False):
+        show_progress=False, computing=False):
     """ops: list of ("append", cfg) | ("next",) | ("all",).  Returns one trace per chain."""
     eng, kernels, keys = build_engine(K, set(needs_hist), chains, seed, J, list(init_cfgs), included,
                                       excluded, store_kernel_states, via_builder=via_builder, nq=nq, prebuild=prebuild,
-                                      tune_error_chains=tune_error_chains, show_progress=show_progress)
+                                      tune_error_chains=tune_error_chains, show_progress=show_progress, computing=computing)
     if via_builder:
         J = int(eng._jitted_sample_duration)
     evs = {c: [] for c in range(chains)}
@@ -276,7 +276,9 @@ def run(ops, K=2, needs_hist=(2,), chains=2, seed=0, J=1, init_cfgs=(), included
                            "seed": seed, "J": J, "init_cfgs": list(init_cfgs), "included": list(included),
                            "excluded": list(excluded), "store_kernel_states": store_kernel_states,
                            "via_builder": via_builder, "nq": nq, "prebuild": prebuild,
-                           "tune_error_chains": list(tune_error_chains), "show_progress": show_progress}
+                           "tune_error_chains": list(tune_error_chains), "show_progress": show_progress,
+                           "computing": computing}
+        hdr["derived"] = {"nel": int(np.prod(SHAPES[0]))} if computing else {}
         hdr.update(meta or {})
         traces.append({"hdr": hdr, "ev": ev})
     return traces
